@@ -66,6 +66,43 @@ type bootstrapSubject struct {
 	parallel []*ssa.Function // in-package callees that start goroutines (opaque events here; decided by C20)
 }
 
+// heldBy: T is an unexported struct type that exactly one other named struct type of its package keeps in a field (by
+// value or by pointer); returns that type.
+func heldBy(c *core.Ctx, T *types.Named) *types.Named {
+	if T == nil || T.Obj().Exported() || core.StructOf(T) == nil || T.Obj().Pkg() == nil {
+		return nil
+	}
+	var holder *types.Named
+	sc := T.Obj().Pkg().Scope()
+	for _, name := range sc.Names() {
+		tn, ok := sc.Lookup(name).(*types.TypeName)
+		if !ok {
+			continue
+		}
+		n, ok := tn.Type().(*types.Named)
+		if !ok || n == T {
+			continue
+		}
+		st := core.StructOf(n)
+		if st == nil {
+			continue
+		}
+		for i := 0; i < st.NumFields(); i++ {
+			ft := st.Field(i).Type()
+			if p, isP := ft.Underlying().(*types.Pointer); isP {
+				ft = p.Elem()
+			}
+			if core.NamedOf(ft) == T {
+				if holder != nil && holder != n {
+					return nil
+				}
+				holder = n
+			}
+		}
+	}
+	return holder
+}
+
 func findBootstrap(c *core.Ctx) (*bootstrapSubject, string) {
 	ro := c.Roles()
 	cpp := c.Named("container", "ComponentPostProcessor")
@@ -81,8 +118,10 @@ func findBootstrap(c *core.Ctx) (*bootstrapSubject, string) {
 	s := &bootstrapSubject{fn: subs[0]}
 	// a bootstrap whose steps are methods of a run-context object (made when the call starts, dropped when it returns):
 	// the routine is the method of the long-lived delegate that makes the context and runs it
+	// ... or of a state object the delegate keeps a part of its fields in: the routine is the delegate's method
+	// that runs it
 	s.fn = liftToShape(c, s.fn, func(sig *types.Signature) bool {
-		return sig.Recv() != nil && !transientType(c, core.NamedOf(sig.Recv().Type()), 0)
+		return sig.Recv() != nil && !transientType(c, core.NamedOf(sig.Recv().Type()), 0) && heldBy(c, core.NamedOf(sig.Recv().Type())) == nil
 	})
 	if s.fn.Signature.Recv() == nil {
 		return nil, "the bootstrap routine is not a method"
